@@ -146,6 +146,33 @@ def run(prog, chk):
                     il = SX.strip(decl[0]['init'])
                     filled |= set((il.get('fields') or fnames)[:len(il.get('items', []))])
                 sites.append((f, n, filled))
+            # an entry filled in place: through a reference bound to the slot (`FunctionInfo& info = m_functionInfo[name];
+            # info.paramTypes.push_back(…)`) or field by field (`m_functionInfo[name].returnType = …`)
+            inplace = {}
+            for d in SX.walk(f.body, into_lambdas=False):
+                if d['k'] == 'var' and (d.get('type') or '').rstrip().endswith('&') and not (d.get('type') or '').lstrip().startswith('const') and SX.is_node(d.get('init')):
+                    i0 = SX.strip(d['init'])
+                    if SX.is_node(i0) and i0.get('k') == 'index' and SX.is_this_member(SX.strip(i0['base']), m):
+                        inplace[d['id']] = (d, set())
+            direct = set()
+            dnode = None
+            for x in SX.walk(f.body, into_lambdas=False):
+                w2 = SX.write_target(x)
+                tgt = SX.strip(w2[0]) if w2 else (SX.strip(x.get('obj')) if x.get('k') == 'mcall' and not x.get('constm', True) else None)
+                while SX.is_node(tgt) and tgt.get('k') in ('index',) and not SX.is_this_member(SX.strip(tgt.get('base')), m):
+                    tgt = SX.strip(tgt.get('base'))
+                if not (SX.is_node(tgt) and tgt.get('k') == 'member' and tgt['name'] in fnames):
+                    continue
+                b = SX.strip(tgt.get('base'))
+                if SX.is_node(b) and b.get('k') == 'ref' and b.get('id') in inplace:
+                    inplace[b['id']][1].add(tgt['name'])
+                elif SX.is_node(b) and b.get('k') == 'index' and SX.is_this_member(SX.strip(b['base']), m):
+                    direct.add(tgt['name'])
+                    dnode = dnode or x
+            for d, filled in inplace.values():
+                sites.append((f, d, filled))
+            if direct:
+                sites.append((f, dnode, direct))
         if len(sites) < 2:
             continue
         nrec += 1
